@@ -448,6 +448,9 @@ type expanded struct {
 	flags     []uint32
 }
 
+// upper bound for generated sample sizes (C08 lowers it to keep files small)
+var genTablesMaxSize = 3000
+
 func genTables(c *Ctx) (*tables, *expanded) {
 	r := c.R
 	n := 1 + r.Intn(60)
@@ -556,13 +559,13 @@ func genTables(c *Ctx) (*tables, *expanded) {
 	// the last chunk may be shorter than its entry's samples-per-chunk only if it has its own entry (ensured above since k differs)
 	// sizes
 	if r.Intn(4) == 0 {
-		t.uniform = uint32(1 + r.Intn(2000))
+		t.uniform = uint32(1 + r.Intn(genTablesMaxSize*2/3+1))
 		for i := 0; i < n; i++ {
 			e.size = append(e.size, t.uniform)
 		}
 	} else {
 		for i := 0; i < n; i++ {
-			s := uint32(r.Intn(3000))
+			s := uint32(r.Intn(genTablesMaxSize))
 			if r.Intn(10) == 0 {
 				s = 0
 			}
